@@ -52,8 +52,13 @@ pub fn parse_input(case: &Value) -> Result<(Input, Value), String> {
     match case["entry"].as_str().unwrap_or("meta") {
         "meta" => {
             let groups = case["group_value"].as_u64().unwrap_or(0);
+            let group_all = case["group_all"].as_u64().unwrap_or(0);
             let text = format!("#[{}]\nstruct S;", src);
-            let attr: syn::DeriveInput = if groups == 0 {
+            let attr: syn::DeriveInput = if group_all != 0 {
+                // every `name = VALUE` at every depth gets its value wrapped (macro_rules! fragments inside a list)
+                let ts: proc_macro2::TokenStream = text.parse().map_err(|_| "lex error".to_string())?;
+                syn::parse2(group_all_values(ts, group_all)).map_err(|e| e.to_string())?
+            } else if groups == 0 {
                 syn::parse_str(&text).map_err(|e| e.to_string())?
             } else {
                 let ts: proc_macro2::TokenStream = text.parse().map_err(|_| "lex error".to_string())?;
@@ -277,6 +282,69 @@ pub fn run_int_sweep(case: &Value) -> Value {
     let q = sweep(true);
     let u = sweep(false);
     json!({"quoted": q, "unquoted": u, "wrong": wrong})
+}
+
+/// Wrap the value of every `name = VALUE` item, at every depth of every delimited group, in `n % 4` nested
+/// invisible (None-delimited) groups spanning the value - what `#[x(a = $v, b($k = $w))]` looks like when the
+/// values are `macro_rules!` fragments.  With `n >= 4` a leading `-` stays outside the group (`a = -$v`).
+fn group_all_values(ts: proc_macro2::TokenStream, n: u64) -> proc_macro2::TokenStream {
+    use proc_macro2::{Delimiter, Group, TokenStream, TokenTree};
+    let depth = n % 4;
+    let neg_outside = n >= 4;
+    let toks: Vec<TokenTree> = ts.into_iter().collect();
+    let mut out: Vec<TokenTree> = vec![];
+    let mut i = 0;
+    while i < toks.len() {
+        match &toks[i] {
+            TokenTree::Group(g) if g.delimiter() != Delimiter::None => {
+                let mut ng = Group::new(g.delimiter(), group_all_values(g.stream(), n));
+                ng.set_span(g.span());
+                out.push(TokenTree::Group(ng));
+                i += 1;
+            }
+            TokenTree::Punct(p)
+                if p.as_char() == '='
+                    && p.spacing() == proc_macro2::Spacing::Alone
+                    && matches!(out.last(), Some(TokenTree::Ident(_))) =>
+            {
+                out.push(toks[i].clone());
+                i += 1;
+                // the value: up to the next `,` of this level
+                let mut value: Vec<TokenTree> = vec![];
+                while i < toks.len() && !matches!(&toks[i], TokenTree::Punct(q) if q.as_char() == ',') {
+                    value.push(toks[i].clone());
+                    i += 1;
+                }
+                if value.is_empty() || depth == 0 {
+                    out.extend(value);
+                    continue;
+                }
+                let mut head: Vec<TokenTree> = vec![];
+                if neg_outside && value.len() > 1 && matches!(&value[0], TokenTree::Punct(q) if q.as_char() == '-') {
+                    head.push(value.remove(0));
+                }
+                let span = value
+                    .first()
+                    .unwrap()
+                    .span()
+                    .join(value.last().unwrap().span())
+                    .unwrap_or_else(|| value.first().unwrap().span());
+                let mut stream: TokenStream = value.into_iter().collect();
+                for _ in 0..depth {
+                    let mut g = Group::new(Delimiter::None, stream);
+                    g.set_span(span);
+                    stream = std::iter::once(TokenTree::Group(g)).collect();
+                }
+                out.extend(head);
+                out.extend(stream);
+            }
+            t => {
+                out.push(t.clone());
+                i += 1;
+            }
+        }
+    }
+    out.into_iter().collect()
 }
 
 /// `# [ name = VALUE ] ...`: wrap VALUE in `n` nested invisible (None-delimited) groups, each
